@@ -58,6 +58,10 @@ class Recorder:
         self._flush_writes(st)
         st["snap"] = self.snap()
         st["done"] = task.done()
+        if st["task"].endswith(":wait_closed") and not st["events"]:
+            # the helper task of `asyncio.shield(writer.wait_closed())`: it only waits for the stream's close
+            # future, touches nothing of the socket and is part of the awaiting task's suspension
+            return
         self.steps.append(st)
 
     def emit(self, *ev):
